@@ -37,7 +37,9 @@ Inductive rtype := TCode | TIDToken | TIDTokenToken.               (* response_t
 Inductive subj := SubjJwtAT | SubjIDToken | SubjRefresh.           (* subject_token_type *)
 Inductive want := WantAccess | WantRefresh | WantID.               (* requested_token_type *)
 Inductive revtok := RevAccess | RevRefresh.                        (* what is being revoked *)
-Inductive endvar := EndHint | EndClientOnly | EndBare.             (* end_session parameters *)
+(* end_session parameters: which of id_token_hint, client_id (= azp of the hint when both are sent),
+   post_logout_redirect_uri (a registered one) and state the request carries *)
+Record endvar := EndReq { e_hint : bool; e_client_id : bool; e_post_logout : bool; e_state : bool }.
 
 Inductive flow :=
 | FAuthorize (c : client) (hint : bool) (rt : rtype) (m : rmode)   (* GET /authorize [id_token_hint] *)
@@ -331,11 +333,10 @@ Definition h_revoke (r : router) (c : client) (t : revtok) (hint : bool) : prog 
 Definition h_end_session (sv : storage) (r : router) (v : endvar) : prog :=
   let terminate := Call (if is_max sv then MTerminateSessionFromRequest else MTerminateSession) (pass r) (ok K302 []) in
   let client := Call MGetClientByClientID (pass r) terminate in
-  match v with
-  | EndHint => Call MKeySet (bad "invalid_request") client
-  | EndClientOnly => client
-  | EndBare => terminate
-  end.
+  (* the client is looked up whenever a client id is known, from the request or from the hint's azp;
+     post_logout_redirect_uri and state are checked / appended without the storage *)
+  opt (e_hint v) (Call MKeySet (bad "invalid_request"))
+    (if e_hint v || e_client_id v then client else terminate).
 
 (* Keys / LegacyServer.Keys *)
 Definition h_keys (r : router) : prog :=
